@@ -392,6 +392,9 @@ def table_follows_data_file(sl):
             # the extracted file carries whatever modification time the archive recorded for it
             state["dm"] = core.fresh_real("mtime_restored_by_the_archive_%d" % len(log), 0)
             core.assume(state["dm"] <= now[0])
+            if len([x for x in log if x[0] == "decompress"]) == 1 and bool(fresh_bool("first_extraction_fails_after_the_document_file_was_written")):
+                # e.g. a later member of the archive is damaged, or the extraction is interrupted
+                raise RuntimeError("Could not decompress provided archive")
 
         @staticmethod
         def prepare_file_offset_table(path):
@@ -426,11 +429,13 @@ def table_follows_data_file(sl):
     OsNs.path.exists = staticmethod(Io.exists)
     prep = loader.DocumentSetPreparator("unittest-track", loader.Downloader(offline=False, test_mode=False), loader.Decompressor())
     with shadowed(loader, ("round", "int"), extra={"os": OsNs, "net": NetOk, "io": Io, "console": offsets._Console}):
-        try:
-            prep.prepare_document_set(ds, root)
-            how, err = "ret", None
-        except Exception as e:  # noqa: BLE001
-            how, err = "raise", e
+        for _run in range(2):  # a failed preparation is simply run again
+            try:
+                prep.prepare_document_set(ds, root)
+                how, err = "ret", None
+                break
+            except Exception as e:  # noqa: BLE001
+                how, err = "raise", e
     core.note("steps", [x[:2] for x in log])
     core.note("outcome", (how, repr(err)[:100]))
     core.trace("steps", len(log))
@@ -441,7 +446,7 @@ def table_follows_data_file(sl):
             observe("and it was built from the document file that is there now (a table of a previous file is never reused, whatever the "
                     "modification times say)", t["from"] == state["gen"])
     else:
-        observe("failure is an explicit Rally error", isinstance(err, (exceptions.DataError, exceptions.SystemSetupError, exceptions.RallyAssertionError)))
+        observe("failure is an explicit error", isinstance(err, (exceptions.DataError, exceptions.SystemSetupError, exceptions.RallyAssertionError, RuntimeError)))
 
 
 def prepare_docs_roots(sl):
